@@ -164,7 +164,7 @@ def build(repo):
     f.resub('R20', r'index\s*\.entry\(new_hv\)\s*\.or_insert_with\(FxHashSet::default\)\s*\.insert\(node_id\);', 'entry_or_default_insert(index, new_hv, node_id);')
     f.ensures('node_listed_under_exactly_its_new_value', 'old(self).property_indexes@.contains_key(*key) ==> forall|n: NodeId, hv: HashableValue| #[trigger] indexed(final(self).property_indexes@[*key]@, hv, n)'
               ' <==> (if n == node_id { hv == hv_of(*new_value) } else { indexed(old(self).property_indexes@[*key]@, hv, n) })')
-    f.before('let new_hv = HashableValue::new(', 'let ghost I1 = index@;\n' + I1FACT)
+    f.before('entry_or_default_insert(index, new_hv, node_id);', 'let ghost I1 = index@;\n' + I1FACT)
     f.after('entry_or_default_insert(index, new_hv, node_id);', '''proof {
     let I2 = index@;
     assert forall|n: NodeId, hv: HashableValue| #[trigger] indexed(I2, hv, n) <==> (if n == node_id { hv == hv_of(*new_value) } else { indexed(I0, hv, n) }) by {
